@@ -85,6 +85,13 @@ _ds("C16", "Cancel at seven life-cycle points of DATA_ADD / timer / read / write
     "target queue returned (at most one after a cancel from another thread), cancellation handler exactly once, on the target queue, after the last handler invocation returned and with the descriptor already "
     "removed from epoll (mirrored table), no handler after it; cancel_and_wait returns with nothing in progress and the descriptor removed. Signal sources are not covered (kernel signal delivery is not owned).", "DESIGN.md §4 C16")
 
+CLAIMED["C14"] = dict(engine="dsched", technique="stateless model checking in I/O-point mode: exhaustive enumeration of the placements of the peer's moves (byte arrival, hang-up, close/stop) and of one injected short transfer/EINTR at the library's I/O syscalls, on the real dispatch I/O code",
+    text="83 dispatch I/O scenarios on pipes and a regular file run on the real library with read/write/pread/pwrite on the watched descriptor interposed; oracle: concatenated handler data = bytes the library consumed from the "
+         "descriptor (recorded by the wrapper), in order, at most the requested length and at most the high-water mark per invocation; written bytes + reported-unwritten = submitted; handler never re-entered (handlers run on a "
+         "concurrent queue), done exactly once and last, stream reads complete in submission order, barrier between, ECANCELED after close, cleanup handler once and after all handlers. This is the least deep of the concurrent "
+         "checks: library-internal thread interleaving is the default schedule in the quick tier.",
+    design_ref="DESIGN.md §4 C14", note=SC + " In I/O-point mode only environment placements are enumerated; spurious EAGAIN and socket-specific behaviour are not modelled.")
+
 NOT_YET = {}
 
 def main():
